@@ -68,7 +68,18 @@ def run(tier, seed, ck=None):
                            [('C05.identity%d.path%d' % (k, p_['id']), '%s sets the receiver to (0 : 1 : 0) regardless of its previous coordinates' % nm,
                              '(assert (not (and (= %s 0) (= %s 1) (= %s 0))))' % (X, Y, Z))], timeout=30)
     if any(not o['ok'] for o in ck.obls) and not ck.violations:
-        path = ck.save_replay({'property': 'C05', 'cases': [{'kind': 'identity-producers'}, {'kind': 'el-battery', 'op': 'equal', 'n': ck.seed}]})
+        # projective scalings taken from word-level models of the paths (tests on raw limbs of a Z coordinate)
+        from vf.dag import limb_witnesses
+        scal = []
+        for r in runs:
+            for p_ in r.paths:
+                for w in limb_witnesses(r, p_['pc'], ['pz', 'qz'], k=2):
+                    for pf in ('pz', 'qz'):
+                        zv = unlimbs(w.get(pf, [0, 0, 0, 0]))
+                        if 0 < zv < P:
+                            scal.append(zv * pow(R, -1, P) % P)
+        scal = list(dict.fromkeys(scal))[:10]
+        path = ck.save_replay({'property': 'C05', 'cases': [{'kind': 'identity-producers'}, {'kind': 'el-battery', 'op': 'equal', 'n': ck.seed, 'a': ','.join('%064x' % v for v in scal)}]})
         ok, out = core.go_test(path)
         if not ok and 'MISMATCH' in out:
             ck.violation('equal', 'Equal/IsIdentity wrong on curve points: %s' % [l.strip() for l in out.splitlines() if 'MISMATCH' in l][:1], path)
